@@ -271,7 +271,7 @@ var specTypes = pbt.Register(&pbt.Spec[Case]{
 			}
 		}
 	},
-	Run: Run,
+	Run: Run, Replicas: 4, ReplicaEvery: 16,
 })
 
 func TestC08Types(t *testing.T) { pbt.Check(t, specTypes) }
@@ -495,9 +495,9 @@ var specHuge = pbt.Register(&pbt.Spec[Case]{
 		"0 x MaxInt, MaxInt/3 x 3, 2^61 x 3, (2^31-1) x (2^32+1), ... (26 shapes, each with New2D, New2DFilled and New2DFromJagged): Get and Set on the 12 x 12 grid of coordinates " +
 		"{0, 1, size-1, size-2, size/2, size, size+1, -1, MaxInt, MinInt, 2^62, 2^32}, Row for those y, RowSpan for those (x1,x2,y) combinations, Fill of whole rows (runs of up to " +
 		"MaxInt cells), of thin columns and with corners swapped / outside, Clone. Oracle: a call panics iff a coordinate is outside the bounds (x1 <= x2 for RowSpan), returned " +
-		"windows have length width / x2-x1+1, Width/Height never change. non-trivial = more than 2^32 cells, at least one call inside and one outside the bounds",
+		"windows have length width / x2-x1+1, Width/Height never change. one case in eight is run again as 4 parallel independent copies. non-trivial = more than 2^32 cells, at least one call inside and one outside the bounds",
 	Enum: func(shard, shards int, tier string, yield func(Case) bool) { hugeCases(yield) },
-	Run:  Run,
+	Run:  Run, Replicas: 4, ReplicaEvery: 8,
 })
 
 func TestC08Huge(t *testing.T) { pbt.Check(t, specHuge) }
